@@ -53,6 +53,7 @@ def _steps_for(I: M.Info, key: str):
         "EVAL": f("set_evaluation_step"),
         "UNC": f("add_parameter_uncertainty_step", parameter_uncertainty_method="RMAT"),
         "PRED": f("add_predictions", pred=["CIPREDI"]),
+        "DERIV": f("add_derivative", with_respect_to=I.eta()),
         "COV": f("add_covariate_effect", parameter=I.ip(), covariate=I.covs[0], effect="exp"),
         "P+": f("add_peripheral_compartment"),
         "LAG": f("add_lag_time"),
@@ -223,34 +224,106 @@ def _norm(x):
     return x
 
 
-def first_diff(a, b, path="", cls=None):
-    """(path, innermost enclosing 'class' value, short description) of the first difference of two dictionary forms."""
+def all_diffs(a, b, path="", classes=(), out=None, limit=12):
+    """[(path, classes of the enclosing dictionaries, short description)] of the differences of two dictionary forms."""
+    if out is None:
+        out = []
+    if len(out) >= limit:
+        return out
     if isinstance(a, dict) and isinstance(b, dict):
-        c = a.get("class", cls) if isinstance(a.get("class", None), str) else cls
+        c = classes + (a["class"],) if isinstance(a.get("class", None), str) else classes
         for k in list(a) + [k for k in b if k not in a]:
             if k not in a or k not in b:
-                return f"{path}/{k}", c, "missing key"
-            d = first_diff(a[k], b[k], f"{path}/{k}", c)
-            if d:
-                return d
-        return None
+                out.append((f"{path}/{k}", c, "missing key"))
+            else:
+                all_diffs(a[k], b[k], f"{path}/{k}", c, out, limit)
+        return out
     if isinstance(a, (list, tuple)) and isinstance(b, (list, tuple)):
         if type(a) is not type(b):
-            return path, cls, f"{type(a).__name__} vs {type(b).__name__}"
+            out.append((path, classes, f"{type(a).__name__} vs {type(b).__name__}"))
+            if list(a) == list(b):
+                return out
         if len(a) != len(b):
-            return path, cls, f"length {len(a)} vs {len(b)}"
-        for i, (x, y) in enumerate(zip(a, b)):
-            d = first_diff(x, y, f"{path}/#", cls)
-            if d:
-                return d
-        return None
+            out.append((path, classes, f"length {len(a)} vs {len(b)}"))
+            return out
+        for x, y in zip(a, b):
+            all_diffs(x, y, f"{path}/#", classes, out, limit)
+        return out
     if isinstance(a, (int, float)) and isinstance(b, (int, float)) and not isinstance(a, bool) and not isinstance(b, bool):
-        if a == b or (a != a and b != b):
-            return None
-        return path, cls, f"{a!r} vs {b!r}"
+        if not (a == b or (a != a and b != b)):
+            out.append((path, classes, f"{a!r} vs {b!r}"))
+        return out
     if type(a) is not type(b) or a != b:
-        return path, cls, f"{type(a).__name__} {str(a)[:30]!r} vs {type(b).__name__} {str(b)[:30]!r}"
-    return None
+        out.append((path, classes, f"{type(a).__name__} {str(a)[:30]!r} vs {type(b).__name__} {str(b)[:30]!r}"))
+    return out
+
+
+def diff_records(a, b):
+    """The differences as small JSON records, one per distinct (field, enclosing class, kind)."""
+    try:
+        ds = all_diffs(a, b)
+    except Exception as e:
+        return [{"field": "?", "in": None, "detail": type(e).__name__}]
+    seen, out = set(), []
+    for path, classes, detail in ds:
+        field = next((x for x in reversed(path.split("/")) if x and x != "#"), "")
+        kind = detail if " vs " in detail and detail.split(" vs ")[0] in ("tuple", "list") else ("value" if " vs " in detail else detail)
+        rec = {"field": field, "in": classes[-1] if classes else None, "in_ode": "CompartmentalSystem" in classes, "detail": kind}
+        k = json.dumps(rec, sort_keys=True)
+        if k not in seen:
+            seen.add(k)
+            rec["path"] = path
+            out.append(rec)
+    return out
+
+
+def attr_diffs(x, back):
+    """When the dictionary forms agree but the objects do not: which attributes (for a model / collection: which
+    members) are unequal, drilled down to the innermost object that has differing attributes."""
+    out = []
+    try:
+        from pharmpy.model import Model
+
+        if isinstance(x, Model):
+            for n in ("parameters", "random_variables", "statements", "execution_steps", "datainfo", "dependent_variables",
+                      "observation_transformation", "value_type"):
+                a, b = getattr(x, n), getattr(back, n)
+                if not (a == b):
+                    sub = attr_diffs(a, b) if hasattr(a, "__dict__") else []
+                    out += sub or [{"field": n, "in": "Model", "in_ode": False, "detail": "attribute"}]
+            return out
+        if hasattr(x, "__len__") and hasattr(x, "__iter__") and not isinstance(x, (str, dict)) and len(x) == len(back):
+            for a, b in zip(x, back):
+                if hasattr(a, "__dict__") and not (a == b):
+                    out += attr_diffs(a, b)
+            if out:
+                return out
+        for k, v in vars(x).items():
+            if k == "_hash":
+                continue
+            w = vars(back).get(k)
+            try:
+                same = (v == w) is True or bool(v == w)
+            except Exception:
+                same = False
+            if not same:
+                out.append({"field": k.lstrip("_"), "in": type(x).__name__, "in_ode": False, "detail": "attribute"})
+    except Exception as e:
+        out.append({"field": "?", "in": type(x).__name__, "in_ode": False, "detail": type(e).__name__})
+    seen, res = set(), []
+    for r in out:
+        k = json.dumps(r, sort_keys=True)
+        if k not in seen:
+            seen.add(k)
+            res.append(r)
+    return res
+
+
+def both_diffs(da, db, x, back):
+    """Differences of the dictionary forms plus the unequal attributes they do not account for."""
+    ds = diff_records(da, db)
+    fields = {d["field"] for d in ds}
+    return ds + [a for a in attr_diffs(x, back) if a["field"] not in fields]
 
 
 _RT_DONE: dict = {}
@@ -289,8 +362,7 @@ def _trip(x, what: str, events: list, model_level=False):
         c, err = same(back)
         info = {}
         if c != 1:
-            fd = first_diff(_norm(d), _norm(back.to_dict())) if c == 2 else None
-            info = {"stage": "compare", "exception": err, "where": fd[0] if fd else None, "diff_class": fd[1] if fd else None}
+            info = {"stage": "compare", "exception": err, "diffs": both_diffs(_norm(d), _norm(back.to_dict()), x, back) if c == 2 else []}
         ev("dict", c, **info)
     except Exception as e:
         ev("dict", 0, stage="from_dict", exception=type(e).__name__, message=str(e)[:100])
@@ -303,21 +375,14 @@ def _trip(x, what: str, events: list, model_level=False):
     loaded = json.loads(txt)
     nd = _norm(d)
     if loaded != nd:
-        fd = first_diff(nd, loaded)
-        ev("json", 2, stage="plain", where=fd[0] if fd else None, diff_class=fd[1] if fd else None, detail=fd[2] if fd else None)
+        ev("json", 2, stage="plain", diffs=diff_records(nd, loaded))
     else:
         try:
             back = T.from_dict(loaded)
             c, err = same(back)
             info = {}
             if c != 1:
-                fd = None
-                try:
-                    fd = first_diff(d, back.to_dict())
-                except Exception:
-                    pass
-                info = {"stage": "compare", "exception": err, "where": fd[0] if fd else None, "diff_class": fd[1] if fd else None,
-                        "detail": fd[2] if fd else None}
+                info = {"stage": "compare", "exception": err, "diffs": both_diffs(d, back.to_dict(), x, back) if c == 2 else []}
             ev("json", c, **info)
         except Exception as e:
             ev("json", 0, stage="from_dict", exception=type(e).__name__, message=str(e)[:100])
@@ -372,9 +437,7 @@ def round_trips(m) -> list:
             if c == 2:
                 which = [n for n in ("parameters", "random_variables", "statements", "dependent_variables", "observation_transformation",
                                      "execution_steps", "datainfo", "value_type") if getattr(back, n) != getattr(m, n)]
-                fd = first_diff(g.to_dict(), back.to_dict())
-                info = {"stage": "compare", "components": which, "where": fd[0] if fd else None, "diff_class": fd[1] if fd else None,
-                        "detail": fd[2] if fd else None}
+                info = {"stage": "compare", "components": which, "diffs": both_diffs(g.to_dict(), back.to_dict(), m, back)}
         except Exception as e:
             c, info = 0, {"stage": "compare", "exception": type(e).__name__, "message": str(e)[:100]}
         events.append({"ev": "rt", "via": "code", "cin": 1, "cout": c, "what": "Model", "info": info})
@@ -384,22 +447,33 @@ def round_trips(m) -> list:
     return events
 
 
-def results_trips() -> list:
-    from pharmpy.tools import read_modelfit_results
-    from pharmpy.workflows.results import read_results
+def results_trips(notes: list) -> list:
+    """Results JSON: ModelfitResults read from the corpus (where they can be read) and one built through the constructor."""
+    import numpy as np
+    import pandas as pd
 
-    events = []
+    from pharmpy.tools import read_modelfit_results
+    from pharmpy.workflows.results import ModelfitResults, read_results
+
+    objs = []
     for key, rel in M.CORPUS.items():
         try:
-            res = read_modelfit_results(core.REPO / rel)
+            objs.append((key, read_modelfit_results(core.REPO / rel)))
+        except Exception as e:  # reading NONMEM output is C20's subject, not a serialisation round trip
+            notes.append(f"results of {key} could not be read ({type(e).__name__}: {str(e)[:60]}): no Results JSON trip for it")
+    pe = pd.Series({"TVCL": 1.5, "IIV_CL": 0.1}, name="estimates")
+    objs.append(("constructed", ModelfitResults(ofv=-12.5, parameter_estimates=pe, covariance_matrix=pd.DataFrame(np.eye(2) * 0.01, index=pe.index, columns=pe.index),
+                                                minimization_successful=True, warnings=[])))
+    events = []
+    for key, res in objs:
+        try:
             j = res.to_json()
             back = read_results(j)
             j2 = back.to_json()
             ok = j2 == j and (back.ofv == res.ofv) and back.parameter_estimates.equals(res.parameter_estimates)
             info = {}
             if not ok:
-                fd = first_diff(json.loads(j), json.loads(j2))
-                info = {"stage": "compare", "where": fd[0] if fd else None, "detail": fd[2] if fd else None}
+                info = {"stage": "compare", "diffs": diff_records(json.loads(j), json.loads(j2))}
             events.append({"ev": "rt", "via": "results", "cin": 1, "cout": 1 if ok else 2, "what": "ModelfitResults", "info": info, "hist": key})
         except Exception as e:
             events.append({"ev": "rt", "via": "results", "cin": 1, "cout": 0, "what": "ModelfitResults", "hist": key,
@@ -413,17 +487,73 @@ def build_task(rec):
         m = build_recipe(rec)
     except Exception as e:
         return {"hist": rec["hist"], "err": f"{type(e).__name__}: {str(e)[:120]}"}
+    trip = any(st.get("op") in TRIP_OPS for st in rec["steps"])
+    trip_ok = None
+    rt = []
     try:
-        rt = round_trips(m)
+        if trip:
+            # the object that came back is only a model of the same content if it equals the one that went in
+            orig = build_recipe(dict(rec, steps=rec["steps"][:-1]))
+            try:
+                trip_ok = (m == orig) is True
+            except Exception:
+                trip_ok = False
+        else:
+            rt = round_trips(m)
     except Exception as e:
         raise core.MachineryError(f"round trips of {rec['hist']}: {type(e).__name__}: {e}")
+    for o in (m, m.parameters, m.statements):
+        try:
+            hash(o)  # as after any comparison / use as dictionary key: the cached hashes travel with the pickle
+        except Exception:
+            pass
     from pharmpy.workflows.hashing import ModelHash
 
     try:
         k = str(ModelHash(m))
     except Exception as e:
         k = "raised:" + type(e).__name__
-    return {"hist": rec["hist"], "pickle": pickle.dumps(m), "rt": rt, "key": k, "cpu": round(time.process_time() - t0, 2)}
+    return {"hist": rec["hist"], "pickle": pickle.dumps(m), "rt": rt, "key": k, "trip_ok": trip_ok, "cpu": round(time.process_time() - t0, 2)}
+
+
+def purge_hash_caches(m):
+    """Forget the hashes cached in another process (what a __getstate__ without _hash would do): the cached value of a
+    str-based hash is only meaningful under the PYTHONHASHSEED of the process that computed it (finding C12-F5)."""
+    from pharmpy.internals.immutable import frozenmapping
+
+    objs = [m, m.parameters, *m.parameters, m.random_variables, m.statements, *m.statements, m.datainfo, m.execution_steps]
+    for o in objs:
+        d = getattr(o, "__dict__", None)
+        if d is None:
+            continue
+        d.pop("_hash", None)
+        for v in d.values():
+            if isinstance(v, frozenmapping):
+                v._hash = None
+    return m
+
+
+def pickle_trip_events(pickles, hists):
+    """In a hashing interpreter: a model pickled by the parent (whose hashes were computed there) against the same pickle
+    with the cached hashes forgotten.  RoundTrip(via = "pickle")."""
+    events = []
+    for b, h in zip(pickles, hists):
+        try:
+            m = pickle.loads(b)
+            clean = purge_hash_caches(pickle.loads(b))
+            bad = [n for n in ("parameters", "random_variables", "statements", "datainfo", "execution_steps") if not (getattr(m, n) == getattr(clean, n))]
+            ok = (m == clean) is True and not bad
+            try:
+                hm, hc = hash(m.parameters), hash(clean.parameters)
+            except Exception:
+                hm = hc = None
+            ok = ok and hm == hc
+            events.append({"ev": "rt", "via": "pickle", "cin": 1, "cout": 1 if ok else 2, "what": "Model", "hist": h,
+                           "info": {} if ok else {"stage": "compare", "components": bad, "hash_equal": hm == hc}})
+        except Exception as e:
+            events.append({"ev": "rt", "via": "pickle", "cin": 1, "cout": 0, "what": "Model", "hist": h,
+                           "info": {"stage": "pickle", "exception": type(e).__name__, "message": str(e)[:100]}})
+    return events
 
 
 # ----------------------------------------------------------------------------- content classes (pharmpy's own ==)
@@ -482,7 +612,7 @@ def _explore(tier: str, box: dict):
             txt = txt.replace("MaxObs = 2", "MaxObs = 2").replace("Hists = {h1, h2}", "Hists = {h1, h2, h3}").replace("Labels = {n1, n2}", "Labels = {n1, n2, n3}")
         cfg = d / "Keys.cfg"
         cfg.write_text(txt)
-        r = core.run_tlc(SPEC / "Keys.tla", cfg, workers=4, timeout=2400)
+        r = core.run_tlc(SPEC / "Keys.tla", cfg, workers=4, timeout=2400, heap="3g")
         core.require_ok(r, "Keys.cfg")
         if r.violated:
             raise core.MachineryError(f"Keys.cfg: design-level {r.violated} violated\n" + "\n".join(r.trace[-2:]))
@@ -492,7 +622,7 @@ def _explore(tier: str, box: dict):
         for fault, invs in expect.items():
             cb = d / f"bad_{fault}.cfg"
             cb.write_text((SPEC / "Keys.cfg").read_text().replace('Fault = "none"', f'Fault = "{fault}"'))
-            rb = core.run_tlc(SPEC / "Keys.tla", cb, workers=2, timeout=600, coverage=False)
+            rb = core.run_tlc(SPEC / "Keys.tla", cb, workers=2, timeout=600, coverage=False, heap="1g")
             if rb.error or rb.violated not in invs:
                 raise core.MachineryError(f"negative control {fault}: expected a violation of {sorted(invs)}, got {rb.violated} {rb.error}")
             controls[fault] = rb.violated
@@ -502,10 +632,10 @@ def _explore(tier: str, box: dict):
         box["err"] = e
 
 
-def _children(pickles, rebuild, d: Path):
+def _children(pickles, hists, rebuild, d: Path):
     """One fresh interpreter per hash seed; returns {proc: result dict}."""
     inp = d / "in.pickle"
-    inp.write_bytes(pickle.dumps({"models": pickles, "recipes": rebuild}))
+    inp.write_bytes(pickle.dumps({"models": pickles, "hists": hists, "recipes": rebuild}))
     procs = {}
     for seed in ("0", "1", "random"):
         env = dict(os.environ)
@@ -531,9 +661,9 @@ def _children(pickles, rebuild, d: Path):
 def _validate(events, v: core.Verdict):
     d = core.scratch("c12tr")
     f = d / "traces.json"
-    tl = [{k: e[k] for k in e if k not in ("info", "idx", "ridx")} for e in events]
+    tl = [{k: e[k] for k in e if k != "info"} for e in events]
     f.write_text(json.dumps([{"events": tl}]))
-    res = core.run_tlc(SPEC / "KeysTrace.tla", SPEC / "KeysTrace.cfg", workers=1, timeout=3000, env={"TRACES": str(f)}, coverage=False)
+    res = core.run_tlc(SPEC / "KeysTrace.tla", SPEC / "KeysTrace.cfg", workers=1, timeout=3000, env={"TRACES": str(f)}, coverage=False, heap="3g")
     shutil.rmtree(d, ignore_errors=True)
     core.require_ok(res, "KeysTrace.tla")
     if res.violated:
@@ -554,8 +684,10 @@ def main(tier: str, seed: int) -> int:
     v.assumptions = [
         "content classes are assigned with pharmpy's own == on models and components plus equality of the dataset (values, dtypes, columns, index): "
         "the check never demands more than 'equal models, equal key' and 'different listed component, different key'",
-        "models travel to the hashing interpreters as pickles (what pharmpy's own dispatcher does); in addition each interpreter rebuilds a sample of the histories itself",
-        "json.loads(json.dumps(to_dict(x))) == to_dict(x) is read modulo tuple/list (both are JSON arrays)",
+        "models travel to the hashing interpreters as pickles (what pharmpy's own dispatcher does); in addition each interpreter rebuilds a sample of the histories itself; "
+        "hashes cached in another process are forgotten before == is used for classification (their effect is judged separately as a pickle round trip)",
+        "json.loads(json.dumps(to_dict(x))) == to_dict(x) is read modulo tuple/list (both are JSON arrays); a model that came back from a trip through to_dict / generic code "
+        "takes part in the key events only if it equals the model that went in",
     ]
     core.use_repo()
     import pharmpy.modeling as pm  # noqa: F401
@@ -577,7 +709,7 @@ def main(tier: str, seed: int) -> int:
     rng.shuffle(sample)
     rebuild = sample[: {"quick": 24, "thorough": 150}[tier]]
     d = core.scratch("c12kids")
-    kids = _children([b["pickle"] for r, b in ok], rebuild, d)
+    kids = _children([b["pickle"] for r, b in ok], [r["hist"] for r, b in ok], rebuild, d)
     shutil.rmtree(d, ignore_errors=True)
     probes = {s: k["probe"] for s, k in kids.items()}
     if len(set(probes.values())) < 2:
@@ -586,25 +718,32 @@ def main(tier: str, seed: int) -> int:
     # the objects and their classes
     models = [pickle.loads(b["pickle"]) for r, b in ok]
     hists = [r["hist"] for r, b in ok]
+    judged = [b["trip_ok"] is not False for r, b in ok]  # trips that did not give back an equal model are judged as round trips only
     rebuilt_models, rebuilt_meta = [], []
     for sd, k in kids.items():
         for rec, (pb, key) in zip(rebuild, k["rebuilt"]):
             if pb is None:
                 v.notes.append(f"history {rec['hist']} could not be rebuilt under seed {sd}: {key}")
                 continue
-            rebuilt_models.append(pickle.loads(pb))
+            rebuilt_models.append(purge_hash_caches(pickle.loads(pb)))
             rebuilt_meta.append((rec["hist"] + "@built-in-child", f"child-{sd}", sd, key))
     sig, eq_errors = classify(models + rebuilt_models)
     labels: dict = {}
     events = []
+    owner = {}  # (hist, label) -> model, for the explanation of a rejected event
     for i, (m, h) in enumerate(zip(models, hists)):
+        if not judged[i]:
+            continue
         lab = label_of(m, labels)
-        base = dict(sig[i], hist=h, label=lab, idx=i)
+        owner[(h, lab)] = (m, sig[i])
+        base = dict(sig[i], hist=h, label=lab)
         events.append(dict(base, ev="key", proc="parent", seed="0", k=ok[i][1]["key"]))
         for sd, k in kids.items():
             events.append(dict(base, ev="key", proc=f"child-{sd}", seed=sd, k=k["keys"][i]))
     for j, (m, (h, proc, sd, key)) in enumerate(zip(rebuilt_models, rebuilt_meta)):
-        events.append(dict(sig[len(models) + j], ev="key", hist=h, label=label_of(m, labels), proc=proc, seed=sd, k=key, ridx=j))
+        lab = label_of(m, labels)
+        owner[(h, lab)] = (m, sig[len(models) + j])
+        events.append(dict(sig[len(models) + j], ev="key", hist=h, label=lab, proc=proc, seed=sd, k=key))
     rng.shuffle(events)
     nkey = len(events)
     rts = []
@@ -612,14 +751,16 @@ def main(tier: str, seed: int) -> int:
         for e in b["rt"]:
             e["hist"] = r["hist"]
             rts.append(e)
-    rts += results_trips()
-    for e in rts:
-        e.setdefault("proc", "")
+    for sd, k in kids.items():
+        for e in k["pickle_trips"]:
+            e["proc"] = f"child-{sd}"
+            e["seed"] = sd
+            rts.append(e)
+    rts += results_trips(v.notes)
     events += rts
     t_build = time.time() - t0
 
     rej = _validate(events, v)
-    allm = models + rebuilt_models
     for x in rej:
         e = events[x["l"] - 1]
         if e["ev"] == "key":
@@ -627,28 +768,33 @@ def main(tier: str, seed: int) -> int:
             differs = sorted(k for k in ("hist", "label", "proc", "seed") if str(e[k]) != str(o[k]))
             case = {"kind": "key", "outcome": x["why"], "hist": e["hist"], "other_hist": o["hist"], "differs": differs,
                     "proc": e["proc"], "seed": e["seed"]}
-            me = allm[e["idx"]] if "idx" in e else rebuilt_models[e["ridx"]]
-            other = next((allm[f["idx"]] if "idx" in f else rebuilt_models[f["ridx"]] for f in events[:nkey]
-                          if f["hist"] == o["hist"] and f["label"] == o["label"]), None)
-            if other is not None:
+            me, other = owner.get((e["hist"], e["label"])), owner.get((o["hist"], o["label"]))
+            diffs = []
+            if me and other:
                 try:
-                    fd = first_diff(_norm(me.to_dict()), _norm(other.to_dict()))
+                    diffs = diff_records(_norm(me[0].to_dict()), _norm(other[0].to_dict()))
                 except Exception as ex:
-                    fd = ("?", None, type(ex).__name__)
-                case["dict_diff"] = fd[0] if fd else None
-                case["diff_class"] = fd[1] if fd else None
+                    diffs = [{"field": "?", "in": None, "in_ode": False, "detail": type(ex).__name__}]
                 if x["why"] == "different_content_same_key":
-                    so = next(f for f in events[:nkey] if f["hist"] == o["hist"] and f["label"] == o["label"])
-                    case["listed_diff"] = [c for c in "prsed" if e[c] != so[c]]
+                    case["listed_diff"] = [c for c in "prsed" if me[1][c] != other[1][c]]
             what = (f"{x['why']}: history {e['hist']} ({e['proc']}, seed {e['seed']}) vs {o['hist']} ({o['proc']}, seed {o['seed']}); "
-                    f"differ in {differs}; dictionary forms differ at {case.get('dict_diff')} [{case.get('diff_class')}]")
+                    f"observations differ in {differs}")
+            # one case per distinct difference of the dictionary forms (so that an additional cause is not hidden)
+            for dr in diffs or [{"field": None, "in": None, "in_ode": False, "detail": None}]:
+                c2 = dict(case, diff_field=dr["field"], diff_in=dr["in"], diff_in_ode=dr["in_ode"], diff_detail=dr["detail"])
+                v.violation(c2, what + f"; dictionary forms differ at {dr.get('path')} ({dr['detail']})")
         else:
             info = e.get("info", {})
             case = {"kind": "rt", "outcome": {0: "roundtrip_failed", 2: "roundtrip_unequal"}.get(e["cout"], "roundtrip"), "via": e["via"], "what": e["what"],
-                    "stage": info.get("stage"), "exception": info.get("exception"), "where": info.get("where"), "diff_class": info.get("diff_class"),
-                    "components": info.get("components"), "hist": e.get("hist")}
-            what = f"round trip of {e['what']} via {e['via']} ({e.get('hist')}): {case['outcome']} at {info.get('stage')} {info.get('where') or ''} {info.get('detail') or ''} {info.get('exception') or ''} {info.get('message') or ''}"
-        v.violation(case, what)
+                    "stage": info.get("stage"), "exception": info.get("exception"), "hist": e.get("hist")}
+            if e["via"] == "pickle":
+                case["seed"] = e.get("seed")
+                case["components"] = info.get("components")
+            what = (f"round trip of {e['what']} via {e['via']} ({e.get('hist')}): {case['outcome']} at {info.get('stage')} "
+                    f"{info.get('exception') or ''} {info.get('message') or ''} {info.get('components') or ''}")
+            for dr in info.get("diffs") or [{"field": None, "in": None, "in_ode": False, "detail": None}]:
+                c2 = dict(case, diff_field=dr["field"], diff_in=dr["in"], diff_detail=dr["detail"])
+                v.violation(c2, what + (f"; differs at {dr.get('path')} ({dr['detail']})" if dr["field"] else ""))
 
     th.join()
     if "err" in box:
@@ -661,30 +807,37 @@ def main(tier: str, seed: int) -> int:
     by_m: dict = {}
     for e in events[:nkey]:
         by_m.setdefault(e["m"], []).append(e)
-    multi_hist = sum(1 for es in by_m.values() if len({e["hist"].split("@")[0] for e in es}) > 1)
+    multi_hist = sum(1 for es in by_m.values() if len({e["hist"].split("@built")[0] for e in es}) > 1)
     multi_label = sum(1 for es in by_m.values() if len({e["label"] for e in es}) > 1)
+    multi_seed = sum(1 for es in by_m.values() if len({e["seed"] for e in es}) > 2)
     sigs = {(e["m"], e["p"], e["r"], e["s"], e["e"], e["d"]) for e in events[:nkey]}
     only = {c: 0 for c in "prsed"}
+    some = {c: 0 for c in "prsed"}
     for a, b in itertools.combinations(sorted(sigs), 2):
         diff = [c for c, x, y in zip("prsed", a[1:], b[1:]) if x != y]
+        for c in diff:
+            some[c] += 1
         if len(diff) == 1:
             only[diff[0]] += 1
-    if multi_hist < 5 or multi_label < 2 or min(only.values()) < 1:
-        raise core.MachineryError(f"vacuous run: classes reached by several histories {multi_hist}, with several labels {multi_label}, single-component differences {only}")
+    if multi_hist < 5 or multi_label < 2 or multi_seed < 5 or min(some.values()) < 1 or min(only[c] for c in "psed") < 1:
+        raise core.MachineryError(f"vacuous run: classes reached by several histories {multi_hist}, with several labels {multi_label}, "
+                                  f"under several seeds {multi_seed}, component differences {some}, single-component differences {only}")
     v.add_coverage(
         evaluations=nkey,
         distinct_nontrivial=len(by_m),
         traces_validated_against_impl=len(events),
         key_events=nkey, roundtrip_events=len(rts),
-        roundtrip_by_via={via: sum(1 for e in rts if e["via"] == via) for via in ("dict", "json", "code", "results")},
+        roundtrip_by_via={via: sum(1 for e in rts if e["via"] == via) for via in ("dict", "json", "code", "pickle", "results")},
         histories_built=len(ok), histories_failed=len(failed), histories_failed_samples=[f"{b['hist']}: {b['err']}" for b in failed[:5]],
+        trips_not_judged_as_keys=sum(1 for j in judged if not j),
         histories_rebuilt_in_children=len(rebuilt_models),
         content_classes=len(by_m), classes_reached_by_several_histories=multi_hist, classes_with_several_labels=multi_label,
-        class_pairs_differing_in_one_component=only, eq_errors_while_classifying=eq_errors,
+        classes_hashed_under_three_seeds=multi_seed,
+        class_pairs_differing_in_component=some, class_pairs_differing_in_one_component=only, eq_errors_while_classifying=eq_errors,
         hash_seed_probes=probes,
-        processes=["parent (PYTHONHASHSEED=0)"] + [f"child PYTHONHASHSEED={s}" for s in kids],
+        processes=["parent (PYTHONHASHSEED=%s)" % os.environ.get("PYTHONHASHSEED")] + [f"child PYTHONHASHSEED={s}" for s in kids],
         tlc_exploration=ex,
-        build_wall_s=round(t_build, 1),
+        build_wall_s=round(t_build, 1), build_cpu_s=round(sum(b.get('cpu', 0) for r, b in ok), 1),
         rule="non-trivial = distinct content classes (pharmpy == and equal dataset) among the models built; every key computation and every round trip is one event of the validated trace",
         samples=[{k: e[k] for k in ("hist", "label", "proc", "seed", "m", "p", "r", "s", "e", "d", "k")} for e in events[:3]] + [{k: e[k] for k in ("via", "what", "cin", "cout", "hist")} for e in rts[:2]],
         exhaustive=False,
